@@ -125,36 +125,24 @@ class _JointOptions(list):
 
 
 def infer_empty_rule(model: Model):
-    """Structural justification of the oracle "'' -> (Empty, True)": in `__infer_type`
-    the first top-level `if` tests `pattern == ''` and returns (_Type.Empty, True), and
-    the only statements before it are nested defs and a re.sub that cannot turn a
-    non-empty text into '' or vice versa ('\\\\{2}' -> non-empty replacement)."""
+    """Justification of the oracle "'' -> (Empty, True)": `__infer_type('')` is interpreted (it is the
+    classifier applied to one constant, the empty text) and must return (_Type.Empty, True)."""
     f = model.method("pregex.core.pre", "Pregex", "__infer_type")
-    body = [s for s in f.node.body if not (isinstance(s, ast.Expr) and isinstance(s.value, ast.Constant))]
-    seen_sub = 0
-    for st in body:
-        if isinstance(st, ast.FunctionDef):
-            continue
-        if isinstance(st, ast.Assign) and isinstance(st.value, ast.Call) and ast.unparse(st.value.func).endswith("sub"):
-            args = st.value.args
-            if len(args) >= 2 and isinstance(args[1], ast.Constant) and isinstance(args[1].value, str) and args[1].value != "":
-                seen_sub += 1
-                continue
-            return False, f"re.sub before the empty test may erase text: {ast.unparse(st)}"
-        if isinstance(st, ast.If):
-            t = st.test
-            ok = (isinstance(t, ast.Compare) and len(t.ops) == 1 and isinstance(t.ops[0], ast.Eq)
-                  and isinstance(t.comparators[0], ast.Constant) and t.comparators[0].value == "")
-            if not ok:
-                return False, f"first test of __infer_type is not `pattern == ''`: {ast.unparse(t)}"
-            r = st.body[0] if st.body else None
-            if isinstance(r, ast.Return) and isinstance(r.value, ast.Tuple) and len(r.value.elts) == 2 \
-                    and ast.unparse(r.value.elts[0]).endswith("Empty") \
-                    and isinstance(r.value.elts[1], ast.Constant) and r.value.elts[1].value is True:
-                return True, "ok"
-            return False, "empty branch does not return (_Type.Empty, True)"
-        return False, f"unexpected statement before the empty test: {ast.unparse(st)[:60]}"
-    return False, "no empty test found"
+    from .interp import FuncRef
+    it = Interp(model, Hooks())
+    try:
+        r = it.call(FuncRef(f), [""])
+    except PyRaise as e:
+        return False, f"__infer_type('') raises {e.name}"
+    except Incomplete as e:
+        return False, f"__infer_type('') cannot be interpreted: {e}"
+    try:
+        t, rep = r
+    except Exception:
+        return False, f"__infer_type('') returns {r!r}"
+    if isinstance(t, EnumVal) and t.name == "Empty" and rep is True:
+        return True, "ok"
+    return False, f"__infer_type('') returns ({t!r}, {rep!r}) instead of (_Type.Empty, True)"
 
 
 # --------------------------------------------------------------------------
